@@ -1610,6 +1610,82 @@ fn c14_wal_cleanup_after_restore(dir: PathBuf) -> ScenFut<'static> {
     })
 }
 
+/// A checkpoint directory that has been opened as a database once (which leaves a commit-log
+/// segment in it) is restored; the source then commits.
+fn c14_restore_shares_wal_with_checkpoint(dir: PathBuf) -> ScenFut<'static> {
+    Box::pin(async move {
+        let cfg = base_cfg();
+        let t = cfg.open(&dir.join("src")).map_err(|e| e.to_string())?;
+        let ck = dir.join("ck");
+        put(&t, &[(b"a", b"1")]).await?;
+        t.create_checkpoint(&ck).map_err(|e| e.to_string())?;
+        {
+            let o = cfg.open(&ck).map_err(|e| format!("checkpoint does not open: {e}"))?;
+            let _ = get1(&o, b"a")?;
+            close(o).await;
+        }
+        let before = dir_digest(&ck);
+        put(&t, &[(b"b", b"2")]).await?;
+        t.restore_from_checkpoint(&ck).map_err(|e| format!("restore: {e}"))?;
+        put(&t, &[(b"c", b"3")]).await?;
+        t.flush_wal(true).map_err(|e| e.to_string())?;
+        let after = dir_digest(&ck);
+        let copy = dir.join("ck-copy");
+        crate::props::c12::copy_dir(&ck, &copy).map_err(|e| e.to_string())?;
+        let _ = std::fs::remove_file(copy.join("LOCK"));
+        let o = cfg.open(&copy).map_err(|e| format!("copy of the checkpoint does not open: {e}"))?;
+        let c_in_ck = get1(&o, b"c")?;
+        close(o).await;
+        close(t).await;
+        if after != before || c_in_ck.is_some() {
+            let changed: Vec<String> = after.iter().filter(|x| !before.contains(x)).map(|x| format!("{} now {} bytes", x.0, x.1)).take(3).collect();
+            return Err(format!("commit a; checkpoint; the checkpoint directory opened as a database, read, closed; commit b; restore from the checkpoint; commit c in the restored store: files of the checkpoint directory changed ({}), and the checkpoint opened as a database now holds c: {}", changed.join(", "), c_in_ck.is_some()));
+        }
+        Ok(())
+    })
+}
+
+/// A second checkpoint into a directory whose first checkpoint has been opened as a database
+/// once (which leaves a commit-log segment there), after the store moved on by several flushes.
+fn c14_checkpoint_into_opened_directory(dir: PathBuf) -> ScenFut<'static> {
+    Box::pin(async move {
+        let cfg = Cfg { level_count: 3, l0_max_files: 8, max_bytes_for_level: 1 << 20, ..base_cfg() };
+        let t = cfg.open(&dir.join("src")).map_err(|e| e.to_string())?;
+        let ck = dir.join("latest");
+        put(&t, &[(b"a", b"1")]).await?;
+        t.create_checkpoint(&ck).map_err(|e| e.to_string())?;
+        {
+            let o = cfg.open(&ck).map_err(|e| format!("first checkpoint does not open: {e}"))?;
+            let _ = get1(&o, b"a")?;
+            close(o).await;
+        }
+        for i in 0..4u8 {
+            put(&t, &[(format!("b{i}").as_bytes(), b"2")]).await?;
+            t.verif_flush().map_err(|e| e.to_string())?;
+        }
+        let second = t.create_checkpoint(&ck).map_err(|e| e.to_string());
+        let what = format!("commit a; checkpoint into `latest`; `latest` opened as a database, read, closed; four more commits, each flushed; second checkpoint into `latest` ({})", match &second { Ok(_) => "returned Ok".to_string(), Err(e) => format!("refused: {e}") });
+        let copy = dir.join("copy");
+        crate::props::c12::copy_dir(&ck, &copy).map_err(|e| e.to_string())?;
+        let _ = std::fs::remove_file(copy.join("LOCK"));
+        let opened = cfg.open(&copy);
+        let r = match opened {
+            Err(e) => Err(format!("{what}: the directory does not open as a database: {e}")),
+            Ok(o) => {
+                let (a, b3) = (get1(&o, b"a")?, get1(&o, b"b3")?);
+                close(o).await;
+                if a.is_none() || (second.is_ok() && b3.is_none()) {
+                    Err(format!("{what}: opened as a database: a present: {}, b3 present: {}", a.is_some(), b3.is_some()))
+                } else {
+                    Ok(())
+                }
+            }
+        };
+        close(t).await;
+        r
+    })
+}
+
 fn c14_version_index_not_restored(dir: PathBuf) -> ScenFut<'static> {
     Box::pin(async move {
         let cfg = ver_cfg(true);
@@ -2240,6 +2316,54 @@ fn c17_checkpoints_fill_l0(dir: PathBuf) -> ScenFut<'static> {
                     let ck = dir.join(format!("ck{i}"));
                     t.create_checkpoint(&ck).map_err(|e| format!("create_checkpoint: {e}"))?;
                     let _ = std::fs::remove_dir_all(&ck);
+                }
+                if let Ok(t) = std::sync::Arc::try_unwrap(t) {
+                    close(t).await;
+                }
+                Ok(())
+            });
+            surrealkv::verif::set_manual_background(true);
+            r
+        })
+        .join()
+        .map_err(|_| "scenario thread panicked".to_string())?;
+        res
+    })
+}
+
+/// A checkpoint taken with level 0 at the write-stall limit is restored; background tasks run.
+fn c17_restore_into_full_l0(dir: PathBuf) -> ScenFut<'static> {
+    Box::pin(async move {
+        let res = std::thread::spawn(move || -> Result<(), String> {
+            let rt = tokio::runtime::Builder::new_multi_thread().worker_threads(4).enable_all().build().map_err(|e| e.to_string())?;
+            // build the checkpoint with the background tasks off, so that level 0 stays full
+            let cfg = Cfg { level_count: 3, l0_max_files: 4, l0_stall: 4, memtable_stall: 4, max_bytes_for_level: 1 << 20, ..base_cfg() };
+            let ck = dir.join("ck");
+            {
+                let (d, ck, cfg) = (dir.clone(), ck.clone(), cfg.clone());
+                rt.block_on(async move {
+                    let t = cfg.open(&d.join("build")).map_err(|e| e.to_string())?;
+                    for i in 0..4u8 {
+                        put(&t, &[(format!("k{i}").as_bytes(), b"v")]).await?;
+                        t.verif_flush().map_err(|e| e.to_string())?;
+                    }
+                    t.create_checkpoint(&ck).map_err(|e| e.to_string())?;
+                    close(t).await;
+                    Ok::<(), String>(())
+                })?;
+            }
+            surrealkv::verif::set_manual_background(false);
+            let r = rt.block_on(async move {
+                let t = std::sync::Arc::new(cfg.open(&dir.join("live")).map_err(|e| e.to_string())?);
+                put(&t, &[(b"x", b"1")]).await?;
+                t.restore_from_checkpoint(&ck).map_err(|e| format!("restore: {e}"))?;
+                let tc = t.clone();
+                let c = tokio::spawn(async move { put(&tc, &[(b"after", b"restore")]).await });
+                match tokio::time::timeout(std::time::Duration::from_secs(20), c).await {
+                    Ok(r) => r.map_err(|e| e.to_string())??,
+                    Err(_) => {
+                        return Err("a checkpoint with 4 tables in level 0 (write-stall threshold 4) is restored into a running store: the first commit afterwards has not returned after 20 s - it waits in the write stall and nothing starts the compaction that would end it".to_string());
+                    }
                 }
                 if let Ok(t) = std::sync::Arc::try_unwrap(t) {
                     close(t).await;
@@ -3740,6 +3864,12 @@ pub fn all() -> Vec<Scenario> {
             run: c17_checkpoints_fill_l0,
         },
         Scenario {
+            id: "C17-restore-into-full-l0",
+            property: "C17",
+            title: "restore of a checkpoint whose level 0 sits at the write-stall limit, then a commit",
+            run: c17_restore_into_full_l0,
+        },
+        Scenario {
             id: "C17-stall-signal-at-yield-point",
             property: "C17",
             title: "the stall-cleared (or shutdown) signal lands between a stalled writer's check and its wait",
@@ -3840,6 +3970,18 @@ pub fn all() -> Vec<Scenario> {
             property: "C14",
             title: "the commit-log clean-up scheduled by a flush runs after a restore to an older checkpoint",
             run: c14_wal_cleanup_after_restore,
+        },
+        Scenario {
+            id: "C14-restore-shares-wal-with-checkpoint",
+            property: "C14",
+            title: "restore from a checkpoint directory that was opened as a database once, then commit",
+            run: c14_restore_shares_wal_with_checkpoint,
+        },
+        Scenario {
+            id: "C14-checkpoint-into-opened-directory",
+            property: "C14",
+            title: "second checkpoint into a directory whose first checkpoint was opened as a database once",
+            run: c14_checkpoint_into_opened_directory,
         },
         Scenario {
             id: "C14-vlog-writer-after-restore",
